@@ -517,8 +517,7 @@ def generate(tier, seed):
                     famx = "%s-cw%d" % (fam, cw)
                     add(0, famx, fam + ("-ext" if ext else ""),
                         "%s %dx%d maxval=%d content=%s hdrstyle=%d len=%d" % (famx, w, h, maxval, content, style, len(f)),
-                        want, f, value_oracle=not ext, both_streams=(k % 8 == 0),
-                        prefixes=quick or content not in ("zero", "max"))
+                        want, f, value_oracle=not ext, both_streams=(k % 8 == 0))
 
     # ---- BMP family inputs ------------------------------------------------------------------
     bmp_variants = []  # (fam, bpp, bitfields, header_size, topdown, gap, perm)
@@ -582,7 +581,7 @@ def generate(tier, seed):
                     want = Im(w, h, alpha, cw, data)
                     fam = "save-cw%d%s" % (cw, "a" if alpha else "")
                     add(1, fam, "save", "%s %dx%d content=%s" % (fam, w, h, content), want,
-                        both_streams=(next(rot) % 4 == 0), prefixes=(ci == 0))
+                        both_streams=(next(rot) % 4 == 0))
     return cases
 
 
